@@ -40,6 +40,36 @@ func fieldName(name string) string {
 	return strings.Title(ret)
 }
 
+// A struct field that holds the fields selected by fragments: all inline fragments on one type, or
+// one fragment spread.
+type fragmentMember struct {
+	spread bool
+	name   string
+}
+
+// assignFieldNames picks the Go field name of every key of m, in sorted order of the keys: the
+// usual name if it is free, otherwise with underscores appended until it is.
+func assignFieldNames(m map[string]string, taken map[string]struct{}) map[string]string {
+	keys := make([]string, 0, len(m))
+	for k := range m {
+		keys = append(keys, k)
+	}
+	sort.Strings(keys)
+	names := make(map[string]string, len(m))
+	for _, k := range keys {
+		name := fieldName(k)
+		for {
+			if _, ok := taken[name]; !ok {
+				break
+			}
+			name += "_"
+		}
+		taken[name] = struct{}{}
+		names[k] = name
+	}
+	return names
+}
+
 func responseKey(field *ast.Field) string {
 	if field.Alias != nil {
 		return field.Alias.Name
@@ -108,7 +138,12 @@ func (s *generateState) generateType(t schema.Type, selections []ast.Selection, 
 			ret = "*" + ret
 		}
 	case *schema.ObjectType, *schema.InterfaceType, *schema.UnionType:
+		// response key => Go type
 		fields := map[string]string{}
+		// type condition => Go type of the struct field holding the inline fragments on that type
+		inlineFields := map[string]string{}
+		// fragment name => Go type of the struct field holding that fragment
+		spreadFields := map[string]string{}
 
 		hasTypename := false
 		// the response key under which __typename is selected (it may be aliased)
@@ -125,8 +160,8 @@ func (s *generateState) generateType(t schema.Type, selections []ast.Selection, 
 			}
 		}
 
-		// type => field names
-		typeConditions := map[string][]string{}
+		// type => the fragment members that apply to it
+		typeConditions := map[string][]fragmentMember{}
 
 		// types for which inline fragments have been generated
 		inlineFragmentTypes := map[string]struct{}{}
@@ -144,8 +179,8 @@ func (s *generateState) generateType(t schema.Type, selections []ast.Selection, 
 					}
 				}
 				name := sel.FragmentName.Name
-				fields[name] = "*" + name + "Fragment `json:\"-\"`"
-				typeConditions[fragTypes[name]] = append(typeConditions[fragTypes[name]], name)
+				spreadFields[name] = "*" + name + "Fragment"
+				typeConditions[fragTypes[name]] = append(typeConditions[fragTypes[name]], fragmentMember{spread: true, name: name})
 			case *ast.InlineFragment:
 				if !hasTypename {
 					if _, ok := t.(*schema.ObjectType); !ok {
@@ -170,8 +205,8 @@ func (s *generateState) generateType(t schema.Type, selections []ast.Selection, 
 				if err != nil {
 					return "", err
 				}
-				fields[cond.TypeName()] = gen + " `json:\"-\"`"
-				typeConditions[cond.TypeName()] = append(typeConditions[cond.TypeName()], cond.TypeName())
+				inlineFields[cond.TypeName()] = gen
+				typeConditions[cond.TypeName()] = append(typeConditions[cond.TypeName()], fragmentMember{name: cond.TypeName()})
 			case *ast.Field:
 				k := responseKey(sel)
 				if _, ok := fieldKeys[k]; ok {
@@ -204,16 +239,40 @@ func (s *generateState) generateType(t schema.Type, selections []ast.Selection, 
 			}
 		}
 
-		parts := make([]string, 0, len(fields))
+		// Go field names: response keys first, then inline fragments, then fragment spreads, each
+		// in sorted order. A name that is already taken gets underscores appended, so that a
+		// response key and a fragment (or "__typename" and "typename__") never share a field.
+		taken := map[string]struct{}{}
+		keyNames := assignFieldNames(fields, taken)
+		inlineNames := assignFieldNames(inlineFields, taken)
+		spreadNames := assignFieldNames(spreadFields, taken)
+		memberName := func(m fragmentMember) string {
+			if m.spread {
+				return spreadNames[m.name]
+			}
+			return inlineNames[m.name]
+		}
+
+		parts := make([]string, 0, len(fields)+len(inlineFields)+len(spreadFields))
 		for k, v := range fields {
-			name := fieldName(k)
+			name := keyNames[k]
 			jsonTag := ""
 			if !strings.EqualFold(name, k) {
 				jsonTag = " `json:\"" + k + "\"`"
 			}
 			parts = append(parts, name+" "+v+jsonTag+"\n")
 		}
+		for k, v := range inlineFields {
+			parts = append(parts, inlineNames[k]+" "+v+" `json:\"-\"`\n")
+		}
+		for k, v := range spreadFields {
+			parts = append(parts, spreadNames[k]+" "+v+" `json:\"-\"`\n")
+		}
 		sort.Strings(parts)
+		typenameField, ok := keyNames[typenameKey]
+		if !ok {
+			typenameField = fieldName(typenameKey)
+		}
 		ret = "struct {\n" + strings.Join(parts, "") + "}"
 
 		if len(typeConditions) > 0 {
@@ -250,7 +309,7 @@ func (s *generateState) generateType(t schema.Type, selections []ast.Selection, 
 				}
 				if isKnown {
 					for _, field := range fields {
-						s.output += `if err := json.Unmarshal(b, &s.` + fieldName(field) + `); err != nil {
+						s.output += `if err := json.Unmarshal(b, &s.` + memberName(field) + `); err != nil {
 								return err
 							}
 						`
@@ -274,9 +333,9 @@ func (s *generateState) generateType(t schema.Type, selections []ast.Selection, 
 				}
 
 				for _, field := range fields {
-					s.output += `switch base.` + fieldName(typenameKey) + ` {
+					s.output += `switch base.` + typenameField + ` {
 						case "` + strings.Join(okTypes, `", "`) + `":
-							if err := json.Unmarshal(b, &s.` + fieldName(field) + `); err != nil {
+							if err := json.Unmarshal(b, &s.` + memberName(field) + `); err != nil {
 								return err
 							}
 						}
